@@ -167,18 +167,24 @@ Fixpoint rehash (old : list id_entry) (T : list id_entry) (cap load : nat) : id_
       end
   end.
 
+(* new_cap = 8; while (new_cap < (m->id_count * 2)) new_cap *= 2; *)
+Definition id_new_cap (count : nat) : id_res nat := grow_cap ID_MIN_CAP (count * 2) (S count).
+
+(* if (new_cap > 8) { min_load = new_cap / 8; max_load = new_cap * 2 / 3; } else { min_load = 0; max_load = 5; } *)
+Definition id_thresholds (new_cap : nat) : nat * nat :=
+  if ID_MIN_CAP <? new_cap then (new_cap / 8, new_cap * 2 / 3) else (0, ID_SMALL_MAX_LOAD).
+
 (* id_resize.  [fail]: the allocation of the new table, if attempted, fails. *)
 Definition id_resize (m : id_map) (fail : bool) : id_res (N * id_map) :=
   if (id_load m <? id_max_load m) && (id_min_load m <=? id_load m) then IdOk (0%N, m)
   else
     let m := if id_static m then set_registered m else m in
     let old_cap := id_cap m in
-    do new_cap <- grow_cap ID_MIN_CAP (id_count m * 2) (S (id_count m));
+    do new_cap <- id_new_cap (id_count m);
     if new_cap =? old_cap then IdOk (0%N, m)
     else if fail then IdOk (id_ENOMEM, m)
     else
-      let '(minl, maxl) := if ID_MIN_CAP <? new_cap then (new_cap / 8, new_cap * 2 / 3)
-                           else (0, ID_SMALL_MAX_LOAD) in
+      let '(minl, maxl) := id_thresholds new_cap in
       do '(T, load) <- rehash (id_entries m) (repeat ie_empty new_cap) new_cap 0;
       IdOk (0%N, mkIdMap T (id_count m) load minl maxl (id_static m) (id_registered m) (id_random m)
                          (id_min_val m) (id_max_val m) (id_dyn_val m)).
